@@ -415,6 +415,30 @@ func steps(thorough bool) []step {
 		}
 		return ""
 	}})
+	// two instances built from one option list with spare capacity: a prefix of it, then all of it (a constructor that
+	// appends to the slice it was handed writes into the caller's list)
+	out = append(out, step{"two writers from one option list (prefix, then all)", func(w *world) string {
+		rec1, rec2 := &recorder{}, &recorder{}
+		all := make([]writer.WriterOption, 0, 8)
+		all = append(all, writer.WithStoreRetriever(rec1), writer.WithFormat(formats.SPDX23JSON), writer.WithRenderOptions(&native.RenderOptions{Indent: 1}), writer.WithFormat(formats.CDX15JSON), writer.WithStoreOptions(&storage.StoreOptions{NoClobber: true}))
+		w1 := writer.New(all[:2]...)
+		all[0] = writer.WithStoreRetriever(rec2)
+		w2 := writer.New(all...)
+		w.ws = append(w.ws, &winst{w: w1, rec: rec1, want: wcfg{Format: formats.SPDX23JSON, Indent: 4}})
+		w.ws = append(w.ws, &winst{w: w2, rec: rec2, want: wcfg{Format: formats.CDX15JSON, Indent: 1, NoClobber: true}})
+		return ""
+	}})
+	out = append(out, step{"two readers from one option list (prefix, then all)", func(w *world) string {
+		rec1, rec2 := &recorder{}, &recorder{}
+		all := make([]reader.ReaderOption, 0, 8)
+		all = append(all, reader.WithStoreRetriever(rec1), reader.WithFormatOptions("k", "v"), reader.WithRetrieveOptions(ro1))
+		r1 := reader.New(all[:1]...)
+		all[0] = reader.WithStoreRetriever(rec2)
+		r2 := reader.New(all...)
+		w.rs = append(w.rs, &rinst{r: r1, rec: rec1, want: rcfg{}})
+		w.rs = append(w.rs, &rinst{r: r2, rec: rec2, want: rcfg{FmtOpt: "v", Ret: ro1}})
+		return ""
+	}})
 	// configuring an instance after construction through its exported Options value: only that instance changes
 	out = append(out, step{"last-writer.Options.RenderOptions.Indent = 9 (in place)", func(w *world) string {
 		if len(w.ws) == 0 {
